@@ -204,6 +204,9 @@ class Monitor:
             self.watch_deposition(model)
         self.pre = {n.name: (node_stock(n, names), node_decayed(n, names)) for n in model.nodes.values()}
         self.pre_arcs = {a.name: arc_transit(a, names) for a in model.arcs.values()}
+        # travel-time arcs that start the timestep with a PULL request under way (asked in an earlier timestep, served in this one)
+        self.pre_pull_queued = {a.name: any(q.get("direction") == "pull" for q in a.queue)
+                                for a in model.arcs.values() if isinstance(getattr(a, "queue", None), list)}
         # a decaying arc decays its queue at close-out "for the following timestep" and starts that timestep with this
         # amount already in total_decayed: within the timestep only the growth of total_decayed is decay of the timestep
         self.pre_arc_dec = {a.name: cvec(a.total_decayed, names) for a in model.arcs.values() if hasattr(a, "total_decayed")}
@@ -232,6 +235,18 @@ class Monitor:
             if not self.eq(vadd(tot_pre, dec), self.post_prev, scale=max(abs(x) for x in self.post_prev) if self.mode != "exact" else 1):
                 self.bad("C03", f"close-out before {date.date()}: stock before {fmt(self.post_prev)} != stock after "
                                 f"{fmt(tot_pre)} + decayed {fmt(dec)} (water or mass appeared/disappeared between timesteps)")
+
+    def late_pull_upstream(self, node, seen=None):
+        seen = seen if seen is not None else set()
+        if node.name in seen:
+            return False
+        seen.add(node.name)
+        for b in node.in_arcs.values():
+            if self.pre_pull_queued.get(b.name):
+                return True
+            if type(b.in_port).__name__ in ("River", "Node") and self.late_pull_upstream(b.in_port, seen):
+                return True
+        return False
 
     def on_post(self, model, date):
         names = self.names
@@ -323,7 +338,13 @@ class Monitor:
             if type(a).__name__ in ("Arc", "PullArc", "PushArc") and vi != vo:
                 self.bad("C02", f"{date.date()} arc {a.name}: in-record {fmt(vi)} != out-record {fmt(vo)}")
             if (frac(a.flow_in) if self.mode == "exact" else a.flow_in) > (frac(a.capacity) if self.mode == "exact" else a.capacity * (1 + 1e-9) + 1e-9):
-                self.bad("C05", f"{date.date()} arc {a.name}: admitted {a.flow_in} > capacity {a.capacity}")
+                # recorded known finding queuearc-late-pull, by mechanism: a plain arc whose supplier draws (through rivers and
+                # junctions) on a travel-time arc that started the timestep with a pull request under way: what was asked
+                # earlier arrives on top of what is asked now, the supplier hands on more than the arc asked for
+                known = None
+                if type(a).__name__ in ("Arc", "PullArc", "SewerArc", "WeirArc") and self.late_pull_upstream(a.in_port):
+                    known = "late-pull"
+                self.bad("C05", f"{date.date()} arc {a.name}: admitted {a.flow_in} > capacity {a.capacity}", known)
         # C03 within the timestep: stock changes only through declared boundaries (and decay)
         scale = max([abs(float(x)) for x in tot_post] + [1.0]) if self.mode != "exact" else 1
         if not self.eq(vadd(vsub(tot_post, tot_pre), decw), boundary, scale):
